@@ -12,9 +12,11 @@ fn main() {
     let n = u.len() as u64;
     ctx.run_slice(Slice::new(format!("strict-pairs[{}^2]", spec.name()), n * n, |i, loc| check_pair::<B>(&u[(i / n) as usize], &u[(i % n) as usize], loc)));
     // strict unit
-    let specu = if quick { Spec::open(3, 2, 2, 2, 2, 1, 1) } else { Spec::open(3, 2, 2, 2, 2, 2, 2) };
-    let uu = specu.universe();
-    ctx.run_slice(Slice::new(format!("strict-unit[{}]", specu.name()), uu.count().min(if quick { 3_000_000 } else { u64::MAX }), |i, loc| check_unit::<B>(&uu.get_open(i), loc)));
+    let specsu = if quick { Spec::family_3x2(1, 0, false) } else { vec![Spec::open(3, 2, 2, 2, 2, 2, 2)] };
+    for specu in specsu {
+        let uu = specu.universe();
+        ctx.run_slice(Slice::new(format!("strict-unit[{}]", specu.name()), uu.count(), |i, loc| check_unit::<B>(&uu.get_open(i), loc)));
+    }
     // strict triples
     let spec3 = if quick { Spec::open(2, 1, 1, 1, 2, 1, 1) } else { Spec::open(2, 1, 1, 2, 2, 1, 1) };
     let u3 = spec3.universe().all_open();
@@ -27,9 +29,12 @@ fn main() {
     let lu = lspec.universe().all();
     let ln = lu.len() as u64;
     ctx.run_slice(Slice::new(format!("lax-pairs[{}^2]", lspec.name()), ln * ln, |i, loc| check_lax_pair(&lu[(i / ln) as usize], &lu[(i % ln) as usize], loc)));
-    let lspecu = Spec::lax(3, 2, 1, 2, 2, 1, 1, 2);
-    let luu = lspecu.universe();
-    ctx.run_slice(Slice::new(format!("lax-unit[{}]", lspecu.name()), luu.count().min(if quick { 3_000_000 } else { u64::MAX }), |i, loc| check_lax_unit(&luu.get(i), loc)));
+    let lfull = Spec::lax(3, 2, 1, 2, 2, 1, 1, 2);
+    let lspecsu = if quick { vec![Spec { e_max: 1, ..lfull.clone() }, Spec { n_max: 2, ..lfull.clone() }, Spec { n_min: 3, e_min: 2, lw: 1, lx: 1, ..lfull.clone() }] } else { vec![lfull.clone()] };
+    for lspecu in lspecsu {
+        let luu = lspecu.universe();
+        ctx.run_slice(Slice::new(format!("lax-unit[{}]", lspecu.name()), luu.count(), |i, loc| check_lax_unit(&luu.get(i), loc)));
+    }
     let lspec3 = if quick { Spec::lax(2, 1, 1, 1, 1, 1, 0, 1) } else { Spec::lax(2, 1, 1, 1, 1, 1, 1, 1) };
     let lu3 = lspec3.universe().all();
     let ln3 = lu3.len() as u64;
